@@ -54,7 +54,12 @@ def gen_c01_layer(rng, kind):
                         "script": [[rng.choice([["retarg"], ["retarg"], ["retarg"], ["raise", "E1"]])]],
                         "escript": [[rng.choice([["reraise"], ["ret", 77], ["ret", -5], ["raise", "E2"]])]]}]
     if kind == "flat_map":
-        return ["flat_map", {"script": [[rng.choice([["retarg"], ["retarg"], ["retarg"], ["raise", "E1"]])]]}]
+        lay = ["flat_map", {"script": [[rng.choice([["retarg"], ["retarg"], ["retarg"], ["raise", "E1"]])]]}]
+        if rng.random() < 0.4:
+            # an error function (it returns a future, which is flattened), and a mapping function that reports its failure as an
+            # already failed future rather than by raising
+            lay[1].update(errfn=True, escript=[[rng.choice([["reraise"], ["ret", 77], ["raise", "E2"]])]], fail_as_future=rng.random() < 0.6)
+        return lay
     if kind == "retry":
         if rng.random() < 0.35:
             ps = [rng.choice(["retry:1.0", "retry:0.0", "retry:2.0", "stop", "raise", "retry:raise"]) for _ in range(rng.randint(1, 3))] + ["stop"]
@@ -152,7 +157,7 @@ def gen_scenarios(seed, tier):
         if any(st == ["raise", "BE"] for ops in clients for op in ops if op[0] == "submit" for beh in op[2] for st in beh):
             # an error function that re-raises what it is given would itself raise a BaseException: user code outside every guard
             for lay in layers:
-                if lay[0] == "map":
+                if lay[0] in ("map", "flat_map"):
                     lay[1]["errfn"] = False
         d = dict(kind="stack", idx=i, base=base, layers=layers, clients=clients,
                  tail=1.0, seed=rng.randrange(1 << 30), max_yields=200000)
@@ -174,7 +179,11 @@ def enc_layers(layers):
                 ef = {"reraise": "reraise", "raise": "raise"}.get(st[0]) or str(st[1])
             out.append("map:%d:%s:%s" % (li, fn, ef))
         elif kind == "flat_map":
-            out.append("fmap:%d:%s" % (li, "raise" if p["script"][0][0][0] == "raise" else "ident"))
+            ef = "none"
+            if p.get("errfn"):
+                st = p["escript"][0][0]
+                ef = {"reraise": "reraise", "raise": "raise"}.get(st[0]) or str(st[1])
+            out.append("fmap:%d:%s:%s" % (li, "raise" if p["script"][0][0][0] == "raise" else "ident", ef))
         elif kind == "retry":
             if p.get("custom"):
                 st = []
